@@ -51,6 +51,8 @@ FUNCS = {
                                                 'Mahotas.cscalar_haar_x_eq_model', 'Mahotas.cscalar_haar_y_eq_model'],
                       words=['sumRectAccesses', 'csumRectAccesses', 'haarXAccesses', 'haarYAccesses', 'haarAccesses'],
                       defined_in='C10Surf.lean', targets=['sum_rect', 'csum_rect', 'haar_x', 'haar_y']),
+    'flat_to_pos': dict(tie=T + 'FlatToPos', theorems=['Mahotas.cscalar_flat_to_pos_eq_model'],
+                        words=['flatToPos'], defined_in='C08.lean', targets=['flat_to_pos']),
     'lbp_map': dict(tie=T + 'Lbp', theorems=['Mahotas.cscalar_roll_right_eq_model', 'Mahotas.cscalar_lbp_map_eq_model'],
                     words=['rollRight32', 'lbpMap32', 'lbpMapLoop'], defined_in='C10Misc.lean', targets=['roll_right', 'lbp_map']),
 }
@@ -196,12 +198,12 @@ def _unit(srcs: dict) -> str:
         s.append('extern "C" unsigned long cs_roll_right(unsigned long v, long points) { return roll_right((npy_uint32)v, (int)points); }')
         if 'lbp_map' in have:
             s.append('extern "C" unsigned long cs_lbp_map(unsigned long v, long points) { return map((npy_uint32)v, (int)points); }')
-    if 'at_flat' in have or 'pos_to_flat' in have:
+    if 'at_flat' in have or 'pos_to_flat' in have or 'flat_to_pos' in have:
         s.append('template <typename BaseType> struct cs_array { bool is_carray_; BaseType* data_; int nd; npy_intp dims_[32]; npy_intp strides_[32];')
         s.append('  typedef numpy::position position;')
         s.append('  BaseType* data() { return data_; } int ndims() const { return nd; } npy_intp dim(int d) const { return dims_[d]; } '
                  'npy_intp stride(int d) const { return strides_[d]; }')
-        for k in ('at_flat', 'pos_to_flat'):
+        for k in ('at_flat', 'pos_to_flat', 'flat_to_pos'):
             if k in have:
                 s.append(srcs[k]['text'])
         s.append('};')
@@ -210,6 +212,9 @@ def _unit(srcs: dict) -> str:
         if 'at_flat' in have:
             s.append('extern "C" long cs_at_flat(long p, long carray, long data, int nd, const long* dims, const long* strides) { '
                      'cs_array<char> A = cs_mk(nd, dims, strides, carray); return (&A.at_flat(p) - A.data_) + data; }')
+        if 'flat_to_pos' in have:
+            s.append('extern "C" void cs_flat_to_pos(long p, int nd, const long* dims, long* out) { cs_array<char> A = cs_mk(nd, dims, 0, 0); '
+                     'numpy::position P = A.flat_to_pos((int)p); for (int i = 0; i < nd; ++i) out[i] = P.position_[i]; }')
         if 'pos_to_flat' in have:
             s.append('extern "C" long cs_pos_to_flat(int nd, const long* dims, const long* pos) { cs_array<char> A = cs_mk(nd, dims, 0, 0); '
                      'numpy::position P; P.nd_ = nd; for (int i = 0; i < nd; ++i) P.position_[i] = pos[i]; return A.pos_to_flat(P); }')
@@ -315,6 +320,15 @@ def _real_rows(case):
         f = getattr(lib, 'cs_' + fn)
         f.restype, f.argtypes = ctypes.c_ulong, [ctypes.c_ulong, ctypes.c_long]
         out = [str(f(v, pts)) for v, pts in case['rows']]
+    elif fn == 'flat_to_pos':
+        f = lib.cs_flat_to_pos
+        f.restype = None
+        for (p,), dims in case['rows']:
+            n = len(dims)
+            A = (ctypes.c_long * max(1, n))(*dims)
+            O = (ctypes.c_long * max(1, n))()
+            f(ctypes.c_long(p), n, A, O)
+            out.append(','.join(str(O[i]) for i in range(n)))
     elif fn == 'pos_to_flat':
         f = lib.cs_pos_to_flat
         f.restype = ctypes.c_long
@@ -334,7 +348,7 @@ def _lines(case):
     pre = f'cs fn={lean}' + (f' dt={dt}' if dt else '')
     if fn in ('margin_of', 'pos_to_flat'):
         return [f'{pre} l0={core.fmt_ints(d)} l1={core.fmt_ints(p)}' for d, p in case['rows']]
-    if fn in ('sum_rect', 'csum_rect', 'haar_x', 'haar_y'):
+    if fn in ('sum_rect', 'csum_rect', 'haar_x', 'haar_y', 'flat_to_pos'):
         return [f'{pre} a={core.fmt_ints(a)} l0={core.fmt_ints(d)}' for a, d in case['rows']]
     if fn == 'at_flat':
         return [f'{pre} a={core.fmt_ints(a)} l0={core.fmt_ints(d)} l1={core.fmt_ints(st)}' for a, d, st in case['rows']]
@@ -511,7 +525,21 @@ def _cases_lbp(rng, tier):
     return out
 
 
+def _cases_flat_to_pos(rng, tier):
+    rows = [[[0], []], [[5], []]]
+    for _ in range(dict(quick=1500, thorough=30000, search=10000)[tier]):
+        nd = rng.choice([1, 1, 2, 2, 2, 3, 3, 4, 5])
+        dims = [rng.choice([1, 2, 3, rng.randint(1, 9)]) for _ in range(nd)]
+        size = 1
+        for d in dims:
+            size *= d
+        p = rng.choice([0, size - 1, size, rng.randrange(size), rng.randint(-2 * size, 3 * size), -1, -size])
+        rows.append([[p], dims])
+    return [dict(fn='flat_to_pos', rows=ch, src='random') for ch in _chunks(rows, 1000)]
+
+
 GENERATORS = {
+    'flat_to_pos': _cases_flat_to_pos,
     'lbp_map': _cases_lbp,
     'surf_rect': _cases_surf,
     'convex': _cases_convex,
